@@ -105,6 +105,7 @@ func pnPanics(c *Ctx, a *flAgg) {
 			}
 		}
 	}
+	pnASTOptional(c, a)
 	c.stat("BN", "explicit_panic_sites", n)
 	a.ok("PN-implicit", "scan", "no unchecked type assertion, integer division by a variable, Must* on computed patterns or strings.Repeat with computed count in scope", token.NoPos)
 }
@@ -1372,4 +1373,91 @@ func fnBindings(parent, fn *ssa.Function) []ssa.Value {
 		}
 	}
 	return nil
+}
+
+// astOptional: pointer fields of go/ast nodes that are documented as "or nil"
+// (a body-less declaration has no Body, a function no Recv, a signature
+// without results no Results ...).
+var astOptional = map[string]bool{
+	"FuncDecl.Body": true, "FuncDecl.Recv": true, "FuncDecl.Doc": true,
+	"FuncType.Results": true, "FuncType.TypeParams": true,
+	"Field.Tag": true, "Field.Doc": true, "Field.Comment": true,
+	"File.Doc": true, "TypeSpec.TypeParams": true, "TypeSpec.Doc": true, "TypeSpec.Comment": true,
+	"GenDecl.Doc": true, "ValueSpec.Doc": true, "ValueSpec.Comment": true, "ImportSpec.Name": true, "ImportSpec.Doc": true, "ImportSpec.Comment": true,
+}
+
+// pnASTOptional (PN-implicit): a field is read through an optional pointer
+// of a syntax tree node only under a dominating test that it is not nil.
+// With sources that do not match the binary any declaration can be the one
+// found for a frame's line - a body-less one (assembly stub) included.
+func pnASTOptional(c *Ctx, a *flAgg) {
+	n := 0
+	for _, pn := range []string{"stack", "internal", "stack/webstack"} {
+		for _, f := range c.L.SrcFuncs(pn) {
+			an := &bnAn{c: c, fn: f}
+			for _, b := range f.Blocks {
+				for _, in := range b.Instrs {
+					var ptr ssa.Value
+					switch t := in.(type) {
+					case *ssa.FieldAddr:
+						ptr = t.X
+					case *ssa.Field:
+						continue
+					default:
+						continue
+					}
+					ld, ok := ptr.(*ssa.UnOp)
+					if !ok || ld.Op != token.MUL {
+						continue
+					}
+					fa, ok := ld.X.(*ssa.FieldAddr)
+					if !ok {
+						continue
+					}
+					pt, ok := fa.X.Type().Underlying().(*types.Pointer)
+					if !ok {
+						continue
+					}
+					nt, ok := pt.Elem().(*types.Named)
+					if !ok || nt.Obj().Pkg() == nil || nt.Obj().Pkg().Path() != "go/ast" {
+						continue
+					}
+					st, ok := nt.Underlying().(*types.Struct)
+					if !ok {
+						continue
+					}
+					name := nt.Obj().Name() + "." + st.Field(fa.Field).Name()
+					if !astOptional[name] {
+						continue
+					}
+					n++
+					guarded := false
+					guards(b, func(cond ssa.Value, truth bool, where *ssa.BasicBlock) {
+						bo, ok := cond.(*ssa.BinOp)
+						if !ok || (bo.Op != token.NEQ && bo.Op != token.EQL) {
+							return
+						}
+						x, y := bo.X, bo.Y
+						if k, ok := x.(*ssa.Const); ok && k.IsNil() {
+							x, y = y, x
+						}
+						k, ok := y.(*ssa.Const)
+						if !ok || !k.IsNil() {
+							return
+						}
+						if (bo.Op == token.NEQ) == truth && an.sameVal(x, ld) {
+							guarded = true
+						}
+					})
+					key := funcKey(f) + "/ast-optional:" + name
+					if guarded {
+						a.ok("PN-implicit", key, "ast."+name+" is read through only where it was tested not to be nil", in.Pos())
+					} else {
+						a.bad("PN-implicit", key, "a field is read through ast."+name+", which is nil for some declarations (body-less function, function without receiver/results), without a dominating nil test: nil dereference while rendering a frame whose line falls next to such a declaration", in.Pos())
+					}
+				}
+			}
+		}
+	}
+	c.stat("BN", "ast_optional_derefs", n)
 }
